@@ -19,11 +19,13 @@ var cacheInputDirs = []string{
 	"internal/j5s/protoprint/optionreflect",
 	"internal/j5s/sourcewalk",
 	"internal/j5s/j5parse",
+	"internal/bcl", "internal/bcl/errpos", "internal/bcl/internal/parser", "internal/bcl/internal/walker",
+	"internal/bcl/internal/walker/schema", "internal/bcl/internal/linter", "lib/j5reflect",
 	"gen/j5/ext/v1/ext_j5pb",
 	"gen/j5/list/v1/list_j5pb",
 	"gen/j5/messaging/v1/messaging_j5pb",
 }
-var cacheInputFiles = []string{"go.mod", "go.sum", "lib/j5reflect/value_ast.go"}
+var cacheInputFiles = []string{"go.mod", "go.sum"}
 
 func cacheKey(repo string) (string, error) {
 	h := sha256.New()
